@@ -192,21 +192,25 @@ func ruleHeaderRefusals(c *core.Ctx) {
 	}
 	c.Check(guardedAll(core.Eq(isF("Magic"), isConst(magic))), rule, "bus/net.Header.Read/magic", hr.Pos(), "nil only across Magic == 0x42dead42", "a header with a wrong magic is accepted")
 	c.Check(guardedAll(core.Eq(isF("Version"), isConst(version))), rule, "bus/net.Header.Read/version", hr.Pos(), "nil only across Version == supported version", "a header with a wrong protocol version is accepted")
-	c.Check(guardedAll(core.Ne(isF("Type"), isConst(0))) && guardedAll(core.UpperBound(isF("Type"), last+1)), rule, "bus/net.Header.Read/type", hr.Pos(),
+	c.Check(guardedAll(core.NonZero(isF("Type"))) && guardedAll(core.UpperBound(isF("Type"), last+1)), rule, "bus/net.Header.Read/type", hr.Pos(),
 		"nil only across Type != 0 and Type <= last message type", "a header with an invalid message type (0 or beyond the last defined type) is accepted")
 
-	// Message.Read: payload behind header validation and size limit
+	// Message.Read: payload behind header validation and size limit (the payload
+	// part may live in a private helper that receives the stream)
 	maxP := constOf(c, "bus/net", "MaxPayloadSize")
 	readN := c.Func("type/basic", "", "ReadN")
-	r := ssa.Value(mr.Params[1])
+	unit := streamUnit(c, mr, mr.Params[1])
 	var streamReads []ssa.CallInstruction
 	var hdrCall ssa.CallInstruction
-	for _, call := range core.Calls(mr) {
-		if usesValue(call, r) {
-			streamReads = append(streamReads, call)
-		}
-		if core.IsCallTo(call, hr) {
-			hdrCall = call
+	var hdrFn *ssa.Function
+	for _, su := range unit {
+		for _, call := range core.Calls(su.fn) {
+			if usesValue(call, su.stream) && !isUnitCall(unit, call) {
+				streamReads = append(streamReads, call)
+			}
+			if core.IsCallTo(call, hr) {
+				hdrCall, hdrFn = call, su.fn
+			}
 		}
 	}
 	if hdrCall == nil || len(streamReads) < 2 {
@@ -214,35 +218,91 @@ func ruleHeaderRefusals(c *core.Ctx) {
 		return
 	}
 	// header parsed from a private buffer
-	private := !usesValue(hdrCall, r)
-	c.Check(private, rule, "bus/net.Message.Read/header-from-buffer", hdrCall.Pos(), "the header fields are parsed from the 28-byte buffer, not from the stream", "Header.Read is applied to the stream itself: a malformed header consumes stream bytes beyond the 28 read")
-	payloadRead := streamReads[len(streamReads)-1]
-	for _, sr := range streamReads {
-		if core.Dominates(payloadRead.(ssa.Instruction), sr.(ssa.Instruction)) {
-			payloadRead = sr
+	private := true
+	for _, su := range unit {
+		if su.fn == hdrFn && usesValue(hdrCall, su.stream) {
+			private = false
 		}
 	}
+	c.Check(private, rule, "bus/net.Message.Read/header-from-buffer", hdrCall.Pos(), "the header fields are parsed from the 28-byte buffer, not from the stream", "Header.Read is applied to the stream itself: a malformed header consumes stream bytes beyond the 28 read")
+	// the payload read: the stream read that is not the HeaderSize one
+	hs := constOf(c, "bus/net", "HeaderSize")
+	var payloadRead ssa.CallInstruction
+	for _, sr := range streamReads {
+		if k, ok := core.ConstInt(sr.Common().Args[len(sr.Common().Args)-1]); ok && k == hs {
+			continue
+		}
+		payloadRead = sr
+	}
 	isHdrOK := func(v ssa.Value) bool { cr, _ := core.CallResult(v); return cr != nil && ssa.CallInstruction(cr) == hdrCall }
-	pin := payloadRead.(ssa.Instruction)
 	bad := ""
-	if !core.IsCallTo(payloadRead, readN) {
-		bad = "the payload is not read with basic.ReadN"
-	} else if !core.Guarded(mr, pin, core.Eq(isHdrOK, core.IsNilConst)) {
-		bad = "the payload is read although Header.Read rejected the header"
-	} else if !core.Guarded(mr, pin, core.UpperBound(isF("Size"), maxP)) {
-		bad = fmt.Sprintf("the payload is read (and its buffer allocated) without Size having been compared with MaxPayloadSize (%d): an over-limit or hostile size is not refused before reading", maxP)
+	if payloadRead == nil {
+		bad = "no payload read found"
+	} else {
+		pin := payloadRead.(ssa.Instruction)
+		pf := payloadRead.Parent()
+		if !core.IsCallTo(payloadRead, readN) {
+			bad = "the payload is not read with basic.ReadN"
+		} else if !guardedUp(c, pf, pin, core.Eq(isHdrOK, core.IsNilConst)) {
+			bad = "the payload is read although Header.Read rejected the header"
+		} else if !guardedUp(c, pf, pin, core.UpperBound(isF("Size"), maxP)) {
+			bad = fmt.Sprintf("the payload is read (and its buffer allocated) without Size having been compared with MaxPayloadSize (%d): an over-limit or hostile size is not refused before reading", maxP)
+		}
 	}
 	// the allocation too
-	for _, b := range mr.Blocks {
-		for _, in := range b.Instrs {
-			if mk, ok := in.(*ssa.MakeSlice); ok && isFieldOf(core.StripConv(mk.Len), fld("Size")) {
-				if !core.Guarded(mr, mk, core.UpperBound(isF("Size"), maxP)) || !core.Guarded(mr, mk, core.Eq(isHdrOK, core.IsNilConst)) {
-					bad = "the payload buffer is allocated before the header was validated and its size compared with MaxPayloadSize"
+	for _, su := range unit {
+		for _, b := range su.fn.Blocks {
+			for _, in := range b.Instrs {
+				if mk, ok := in.(*ssa.MakeSlice); ok && isFieldOf(core.StripConv(mk.Len), fld("Size")) {
+					if !guardedUp(c, su.fn, mk, core.UpperBound(isF("Size"), maxP)) || !guardedUp(c, su.fn, mk, core.Eq(isHdrOK, core.IsNilConst)) {
+						bad = "the payload buffer is allocated before the header was validated and its size compared with MaxPayloadSize"
+					}
 				}
 			}
 		}
 	}
-	c.Check(bad == "", rule, "bus/net.Message.Read/payload-guards", payloadRead.Pos(), "payload allocation and read are behind Header.Read == nil and Size <= MaxPayloadSize", bad)
+	pos := mr.Pos()
+	if payloadRead != nil {
+		pos = payloadRead.Pos()
+	}
+	c.Check(bad == "", rule, "bus/net.Message.Read/payload-guards", pos, "payload allocation and read are behind Header.Read == nil and Size <= MaxPayloadSize", bad)
+}
+
+// streamUnitEntry: a function of the unit with the value that denotes the stream in it.
+type streamUnitEntry struct {
+	fn     *ssa.Function
+	stream ssa.Value
+}
+
+// streamUnit follows a stream parameter into the private helpers it is handed to.
+func streamUnit(c *core.Ctx, fn *ssa.Function, stream ssa.Value) []streamUnitEntry {
+	out := []streamUnitEntry{{fn, stream}}
+	seen := map[*ssa.Function]bool{fn: true}
+	for i := 0; i < len(out); i++ {
+		for _, call := range core.Calls(out[i].fn) {
+			f := core.StaticCallee(call)
+			if f == nil || seen[f] || !isPrivateHelper(c, f) || f.Pkg != fn.Pkg {
+				continue
+			}
+			for ai, a := range call.Common().Args {
+				if core.Canon(a) == out[i].stream && ai < len(f.Params) {
+					seen[f] = true
+					out = append(out, streamUnitEntry{f, f.Params[ai]})
+				}
+			}
+		}
+	}
+	return out
+}
+
+func isUnitCall(unit []streamUnitEntry, call ssa.CallInstruction) bool {
+	f := core.StaticCallee(call)
+	for _, u := range unit[1:] {
+		if u.fn == f {
+			return true
+		}
+	}
+	return false
 }
 
 func ruleMessageReads(c *core.Ctx) {
@@ -254,42 +314,63 @@ func ruleMessageReads(c *core.Ctx) {
 		c.Undecided(rule, "bus/net.Message.Read", token.NoPos, "anchor not found")
 		return
 	}
-	r := ssa.Value(mr.Params[1])
 	n := 0
 	bad := ""
 	hs := constOf(c, "bus/net", "HeaderSize")
 	sawHeader := false
-	for _, call := range core.Calls(mr) {
-		if !usesValue(call, r) {
-			continue
-		}
-		n++
-		if !core.IsCallTo(call, readN) {
-			bad = "the stream is handed to " + core.CalleeName(call) + " instead of basic.ReadN: bytes beyond header+payload can be consumed, or short reads go unnoticed"
-			continue
-		}
-		if k, ok := core.ConstInt(call.Common().Args[2]); ok && k == hs {
-			sawHeader = true
-		}
-		if core.CanReach(call.(ssa.Instruction), func(x ssa.Instruction) bool { return x == call.(ssa.Instruction) }) != nil {
-			bad = "a stream read sits in a loop"
+	unit := streamUnit(c, mr, mr.Params[1])
+	for _, su := range unit {
+		for _, call := range core.Calls(su.fn) {
+			if !usesValue(call, su.stream) || isUnitCall(unit, call) {
+				continue
+			}
+			n++
+			if !core.IsCallTo(call, readN) {
+				bad = "the stream is handed to " + core.CalleeName(call) + " instead of basic.ReadN: bytes beyond header+payload can be consumed, or short reads go unnoticed"
+				continue
+			}
+			if k, ok := core.ConstInt(call.Common().Args[2]); ok && k == hs {
+				sawHeader = true
+			}
+			if core.CanReach(call.(ssa.Instruction), func(x ssa.Instruction) bool { return x == call.(ssa.Instruction) }) != nil {
+				bad = "a stream read sits in a loop"
+			}
 		}
 	}
 	if bad == "" && (n != 2 || !sawHeader) {
 		bad = fmt.Sprintf("%d stream reads (expected: one of HeaderSize bytes, one of Header.Size bytes)", n)
 	}
 	c.Check(bad == "", rule, "bus/net.Message.Read/stream-reads", mr.Pos(), "exactly two ReadN on the stream: HeaderSize bytes, then the payload", bad)
-	// Payload assigned on every success path
-	isStore := func(x ssa.Instruction) bool {
-		st, ok := x.(*ssa.Store)
-		return ok && isFieldOf(st.Addr, payloadF)
-	}
-	ok := true
-	for _, ret := range core.Returns(mr) {
-		if successReturn(ret) && !core.MustPassBefore(mr, ret, isStore) {
-			ok = false
+	// Payload assigned on every success path (directly or in a helper of the unit)
+	var assigns func(fn *ssa.Function, depth int) bool
+	assigns = func(fn *ssa.Function, depth int) bool {
+		isStore := func(x ssa.Instruction) bool {
+			if st, ok := x.(*ssa.Store); ok && isFieldOf(st.Addr, payloadF) {
+				return true
+			}
+			if call, ok := x.(*ssa.Call); ok && depth < 3 {
+				if f := call.Call.StaticCallee(); f != nil && f != fn && isUnitCall(unit, call) {
+					return assigns(f, depth+1)
+				}
+			}
+			return false
 		}
+		for _, ret := range core.Returns(fn) {
+			if successReturn(ret) && !core.MustPassBefore(fn, ret, isStore) {
+				return false
+			}
+			// `return m.helper(r)`: the result of a unit helper
+			if !successReturn(ret) && !errorReturnConst(ret) {
+				if cr, _ := core.CallResult(core.RetVal(ret, len(ret.Results)-1)); cr != nil && isUnitCall(unit, cr) {
+					if !assigns(cr.Call.StaticCallee(), depth+1) {
+						return false
+					}
+				}
+			}
+		}
+		return true
 	}
+	ok := assigns(mr, 0)
 	c.Check(ok, rule, "bus/net.Message.Read/payload-assigned", mr.Pos(), "Payload is (re)assigned on every success path", "Message.Read can succeed without assigning Payload (zero-size message): a reused Message keeps the previous payload, which no longer matches Header.Size")
 }
 
